@@ -748,6 +748,9 @@ def _cycle_shapes_failures():
     fails, n = [], 0
     try:
         shapes = [(k, stamped, entry, j, None) for k in (2, 3) for stamped in ('none', 'first', 'last', 'all') for entry in ['top'] + ['t%d' % i for i in range(k)] for j in (1, 4)]
+        # the same through redo-ifchange (the out-of-band path: an uncertain checksummed dependency is built by redo-unlocked
+        # while the caller keeps its lock), -j1 only
+        shapes += [(k, stamped, entry, 0, None) for k in (2, 3) for stamped in ('first', 'last', 'all') for entry in ['top'] + ['t%d' % i for i in range(k)]]
         # the top-level command started with a REDO_CYCLES that is set but names nobody: empty, or with an empty item (the
         # value apenwarr's redo writes always carries one)
         shapes += [(2, 'none', entry, j, cyc) for cyc in ('', ':999983', '999983:') for entry in ('top', 't0', 't1') for j in (1, 4)]
@@ -781,9 +784,9 @@ def _cycle_shapes_failures():
                             continue
                         open(os.path.join(proj, names[k - 1] + '.do'), 'w').write(script(k - 1, True))
                         open(os.path.join(proj, 'src'), 'w').write('two, longer\n')
-                        hist = 'chain of %d, redo-stamp before the dependency in: %s; built once; %s.do now asks for t0; src edited; %sredo -j%d %s' % (k, stamped, names[k - 1], '' if cyc is None else 'REDO_CYCLES=%r ' % cyc, j, entry)
+                        hist = 'chain of %d, redo-stamp before the dependency in: %s; built once; %s.do now asks for t0; src edited; %sredo -j%d %s' % (k, stamped, names[k - 1], '' if cyc is None else 'REDO_CYCLES=%r ' % cyc, j, entry) + ('' if j else ' [-j0 stands for: redo-ifchange <entry>]')
                         try:
-                            r = _run_group(['redo', '--no-log', '-j%d' % j, entry], 20, cwd=proj, env=env_)
+                            r = _run_group((['redo', '--no-log', '-j%d' % j, entry] if j else ['redo-ifchange', entry]), 20, cwd=proj, env=env_)
                             if r.returncode == 0:
                                 fails.append(dict(input=hist, observed='exit 0', clause='a build that runs into a dependency cycle ends with a non-zero status'))
                         except subprocess.TimeoutExpired:
@@ -1337,7 +1340,7 @@ def conformance(prop, unit_names, pins_changed, labels_props):
             out.append(dict(oid='dofiles/start_self_arguments/args.temp_beside_target', msg='clause fails on the real binaries for a concrete input (bounded probe temp-collision, %d pairs)' % r[1],
                             where=REPO + '/src/builder.rs:start_self', site=None, text=hits[0]['clause'], rendered=json.dumps(hits[:6], indent=1), inputs=[h['input'] for h in hits],
                             fn='start_self_arguments', label='args.temp_beside_target', props=[prop]))
-    if prop == 'C16' and ('dbmode' in unit_names or 'txn' in unit_names or 'records' in unit_names or 'queries' in unit_names):
+    if prop == 'C16' and ('dbmode' in unit_names or 'txn' in unit_names or 'records' in unit_names or 'queries' in unit_names or 'sched' in unit_names):
         r = _concurrent_state_failures()
         if r and r[0]:
             hits = r[0]
